@@ -1,6 +1,7 @@
 #!/bin/bash
 # usage: mk_seed_wt.sh <ID>  -> creates /tmp/seedwt/<ID> (detached worktree of /repo HEAD with the compiled extension modules copied in)
 ID=$1; WT=/tmp/seedwt/$ID
+exec 9>/tmp/seed_repo.lock; flock 9
 rm -rf $WT; git -C /repo worktree prune
 git -C /repo worktree add -q --detach $WT HEAD || exit 2
 rsync -a --include='*/' --include='*.so' --include='*.c' --include='*.cpp' --exclude='*' /repo/TidalPy/ $WT/TidalPy/
